@@ -42,6 +42,7 @@ type Engine struct {
 	writeSets    map[*ssa.Function]writeSetT
 	bindErrors   []string
 	assumptions  map[string]bool // textual assumption registry (global)
+	uncovered    map[string]bool // call sites whose tagged callee precondition is checked under no property
 	extraSpecDir string
 }
 
@@ -92,7 +93,7 @@ func loadEngine(repo string, specDir string) (*Engine, error) {
 		funcs: map[string]*ssa.Function{}, specs: map[string]*FuncSpec{}, ifaces: map[string]*FuncSpec{}, fields: map[string]*FuncSpec{}, externs: map[string]*FuncSpec{},
 		pures: map[string]*PureFunc{}, preds: map[string]*PredDecl{}, ghosts: map[string]*GhostVar{},
 		locks: map[string]*LockInv{}, chans: map[string]*ChanInv{}, atomics: map[string]*ChanInv{},
-		sentinelOf: map[string]string{}, writeSets: map[*ssa.Function]writeSetT{}, assumptions: map[string]bool{},
+		sentinelOf: map[string]string{}, writeSets: map[*ssa.Function]writeSetT{}, assumptions: map[string]bool{}, uncovered: map[string]bool{},
 		extraSpecDir: specDir,
 	}
 	for _, sp := range spkgs {
